@@ -148,10 +148,11 @@ var stmtCatalogue = []snippet{
 	{pre: "func rs() []int { return nil }", body: "b = rs() == nil", only: "b"}, {pre: "func re() error { return nil }", body: "b = re() == nil", only: "b"}, {pre: "func rp() *int { return nil }", body: "b = rp() == nil", only: "b"},
 	{pre: "type PS struct{ a int }\nfunc rps() *PS { return nil }", body: "b = rps() == nil", only: "b"}, {pre: "func pf(f float64) bool { return f > 0 }", body: "b = pf(1)", only: "b"},
 	{pre: "func pe(e interface{}) bool { return e == nil }", body: "b = pe(n)", only: "b"}, {pre: "func pe(e interface{}) bool { return e == nil }", body: "b = pe(nil)", only: "b"},
-	{body: "x := 1i; b = real(x) == 0", only: "b"}, {body: "x := uint64(1 << 63); b = x > 1", only: "b"}, {body: "x := 1 << 62; n = x", only: "b"}, {body: "b = float64(n) + float64(n) > 1", only: "b"},
+	{body: "x := 1i; b = real(x) == 0", only: "b"}, {body: "x := uint64(1 << 63); b = x > 1", only: "b"}, {body: "x := 1 << 62; n = x", only: "b"}, {body: "b = float64(n) + float64(n) > 1", only: "b"}, {body: "x := float64(n) + float64(n); b = x > 1", only: "b"}, {body: "x := b; y := x == b; b = y", only: "b"},
 	{body: "n = len([]int{1}[0:1:1])", only: "b"}, {body: "n = len([]int{1}[1:])", only: "b"}, {body: "s = s[n:]", only: "b"}, {body: "s = s[:n]", only: "b"}, {body: "s = s[:]", only: "b"}, {body: "s = s[1:n]", only: "b"}, {body: "s = (s + s)[1:]", only: "b"},
 	// the packages the bytecode knows (each of these files costs a type check of the package from source)
-	{imp: "strconv", body: "println(strconv.Atoi(s))"},
+	{imp: "strconv", body: "println(strconv.Atoi(s))"}, {imp: "fmt", body: "s = fmt.Sprint(fmt.Sscan(s))"},
+	{imp: "os", body: "s = os.Getenv(s)"}, {imp: "str \"strings", body: "s = str.ToUpper(s)"}, {imp: ". \"strings", body: "s = ToUpper(s)"},
 	{imp: "fmt", body: "s = fmt.Sprintf(\"%d %s\", n, s)"}, {imp: "fmt", body: "s = fmt.Sprint(n, s, b)"}, {imp: "fmt", body: "x := []interface{}{n}; s = fmt.Sprint(x...)"},
 	{imp: "strings", body: "b = strings.Contains(s, \"a\") && strings.HasPrefix(s, s)"}, {imp: "strings", body: "f := strings.ToUpper; s = f(s)"},
 	{imp: "strconv", body: "x, err := strconv.Atoi(s); b = err == nil && x == n"}, {imp: "strconv", body: "x, _ := strconv.Atoi(s); n = x"},
@@ -268,6 +269,56 @@ var binderForms = []snippet{
 	{body: "map[string]int{\"NAME\": 1}[\"NAME\"] == 1"},
 }
 
+// types in the signatures of the functions the bytecode compiler meets: every kind of Go type as a parameter, as the result, as a
+// local variable and as the receiver (the position rotates with the seed)
+var sigTypes = []snippet{
+	{body: "int"}, {body: "string"}, {body: "bool"}, {body: "byte"}, {body: "rune"}, {body: "int64"}, {body: "uint"}, {body: "uintptr"}, {body: "float64"}, {body: "complex128"},
+	{body: "error"}, {body: "interface{}"}, {body: "any"}, {body: "interface{ M() }"}, {body: "*int"}, {body: "**int"}, {body: "*string"}, {body: "[]int"}, {body: "[2]int"}, {body: "[]string"},
+	{body: "map[string]int"}, {body: "chan int"}, {body: "<-chan int"}, {body: "func()"}, {body: "func(int) bool"}, {body: "struct{}"}, {body: "struct{ a int }"}, {body: "*struct{ a int }"},
+	{body: "ST", pre: "type ST struct{ a int }"}, {body: "*ST", pre: "type ST struct{ a int }"}, {body: "**ST", pre: "type ST struct{ a int }"}, {body: "[]*ST", pre: "type ST struct{ a int }"},
+	{body: "NI", pre: "type NI int"}, {body: "NS", pre: "type NS string"}, {body: "NB", pre: "type NB bool"}, {body: "*NI", pre: "type NI int"}, {body: "NP", pre: "type ST struct{ a int }\ntype NP *ST"},
+	{body: "NF", pre: "type NF func()"}, {body: "NIF", pre: "type NIF interface{ M() }"}, {body: "AL", pre: "type AL = int"}, {body: "ALP", pre: "type ST struct{ a int }\ntype ALP = *ST"},
+	{body: "REC", pre: "type REC struct{ next *REC }"}, {body: "*REC", pre: "type REC struct{ next *REC }"}, {body: "G[int]", pre: "type G[E any] struct{ v E }"}, {body: "*G[int]", pre: "type G[E any] struct{ v E }"},
+	{body: "GI[int]", pre: "type GI[E any] interface{ M() E }"}, {body: "*dsl.VarFilterContext"}, {body: "dsl.VarFilterContext"}, {body: "*dsl.DoContext"}, {body: "dsl.Var"}, {body: "*dsl.Var"}, {body: "dsl.Matcher"},
+	{body: "dsl.MatchedText"}, {body: "dsl.ExprType"}, {body: "dsl.Bundle"}, {body: "*dsl.Bundle"}, {body: "types.Type"}, {body: "*types.Pointer"}, {body: "types.Pointer"}, {body: "*types.Var"}, {body: "[]types.Type"},
+}
+
+// renderSig: the type in one position of an otherwise trivial function
+func renderSig(sn snippet, pos int, what string) spanFile {
+	var fb fileBuilder
+	fb.add(fnHeader)
+	if strings.Contains(sn.body, "types.") {
+		fb.add("import \"github.com/quasilyte/go-ruleguard/dsl/types\"")
+	}
+	fb.add("")
+	fb.add("var _ dsl.Matcher")
+	fb.add("")
+	lo := len(fb.lines) + 1
+	if sn.pre != "" {
+		fb.add(sn.pre)
+		fb.add("")
+	}
+	t := sn.body
+	switch pos {
+	case 0: // parameter
+		fb.add("func sg(x " + t + ", n int) bool {\n\treturn n > 0\n}")
+	case 1: // result
+		fb.add("func sg(x " + t + ") " + t + " {\n\treturn x\n}\n\nfunc sg2(x " + t + ") bool {\n\ty := sg(x)\n\treturn sg(y) == x\n}")
+	case 2: // local variable
+		fb.add("func sg(x " + t + ") bool {\n\ty := x\n\tz := y\n\treturn z == x\n}")
+	case 3: // variadic parameter
+		fb.add("func sg(n int, xs ..." + t + ") bool {\n\treturn n > 0\n}\n\nfunc sg2(x " + t + ") bool {\n\treturn sg(1, x, x) && sg(2)\n}")
+	case 4: // unnamed / blank parameters
+		fb.add("func sg(" + t + ", int) bool {\n\treturn true\n}\n\nfunc sg2(_ " + t + ", _ int) bool {\n\treturn false\n}")
+	default: // receiver
+		fb.add("type RT struct{ f " + t + " }\n\nfunc (r RT) sg(n int) bool {\n\treturn n > 0\n}\n\nfunc (r *RT) sg2(n int) bool {\n\treturn r != nil && n > 0\n}")
+	}
+	hi := len(fb.lines)
+	fb.add("")
+	fb.add("func g(m dsl.Matcher) {\n\tm.Match(`$x + $y`).Report(`r`)\n}")
+	return spanFile{what: what, src: fb.String(), lo: lo, hi: hi, debug: "sg"}
+}
+
 var binderNames = []string{"x", "v", "n", "Pure", "m", "f", "int", "true", "dsl", "len", "_"}
 
 type fnHost int
@@ -311,7 +362,9 @@ const fnHeader = "package gorules\n\nimport \"github.com/quasilyte/go-ruleguard/
 func renderFn(sn snippet, h fnHost, isExpr bool, what string) spanFile {
 	var fb fileBuilder
 	fb.add(fnHeader)
-	if sn.imp != "" {
+	if strings.Contains(sn.imp, "\"") { // import <name> "path": the entry carries the name and the opening quote
+		fb.add("import " + sn.imp + "\"")
+	} else if sn.imp != "" {
 		fb.add("import \"" + sn.imp + "\"")
 	}
 	if strings.Contains(sn.body+sn.pre, "types.") {
@@ -445,6 +498,11 @@ func fnFiles(seed int64, rng *rand.Rand, nrand int) []spanFile {
 	for i, sn := range bigSnippets() {
 		h := []fnHost{hostFilter, hostDo}[(i+rot)%2]
 		out = append(out, renderFn(sn, h, false, fmt.Sprintf("limit %d in %s", i, hostNames[h])))
+	}
+	sigPos := []string{"a parameter", "the result", "a local variable", "a variadic parameter", "unnamed and blank parameters", "a field of the receiver"}
+	for i, sn := range sigTypes {
+		pos := (i + rot) % len(sigPos)
+		out = append(out, renderSig(sn, pos, fmt.Sprintf("type %s as %s", sn.body, sigPos[pos])))
 	}
 	for i, sn := range binderForms {
 		name := binderNames[(i+rot)%len(binderNames)]
